@@ -1,5 +1,5 @@
 (* C11/Run.v — evaluation of the parser models on harness inputs. input: [parser bytes args]; output: [class vals spec errclass]
-   class: 0 ok, 1 error, 2 panic.  parsers: 0 binpatch_load 1 zip_cd 2 apk_signers 3 apk_signed_data 4 apk_v2 5 xap_trailer 6 csblob_super *)
+   class: 0 ok, 1 error, 2 panic.  parsers: 0 binpatch_load 1 zip_cd 2 apk_signers 3 apk_signed_data 4 apk_v2 5 xap_trailer 6 csblob_super 7 apk_digest_loop *)
 From Relic Require Import Base.Prelude Base.Enc Base.Val Generated.C11_gen C11.Model.
 From Relic Require C17.Model C12.Model.
 
@@ -39,4 +39,5 @@ Definition run (v : val) : val :=
   else if p =? 4 then out (apk_v2_parse (fun _ => false) (arg 0%nat) (arg 1%nat) (arg 2%nat) b) (fun l => zlen l :: flat_map signer_lens l) 1
   else if p =? 5 then out (xap_remove b) (fun n => [n]) 1
   else if p =? 6 then out (parse_super b) (fun r => fst r :: zlen (snd r) :: flat_map (fun i => [it_type i; it_magic i; it_len i]) (snd r)) 1
+  else if p =? 7 then out (verify_digests (map vz args)) (fun n => [n]) 1
   else VL [VZ 9; VZs []; VZ 1; VZ 0].
